@@ -199,7 +199,7 @@ def replay(w):
         return False, 'cut short by sift_thresh'
     scale = max(np.abs(x).max(), np.abs(imf).max()) or 1.0      # relative to the largest magnitude involved (small-amplitude recordings count too)
     err = np.abs(imf.sum(axis=1) - x).max()
-    if err > 1e-9 * scale * imf.shape[1]:
+    if not (err <= 1e-9 * scale * imf.shape[1]):       # (NaN-aware: a non-finite component is not a decomposition of x)
         return True, 'the %d components do not sum back to the input: max |sum - x| = %.3g (x=%s opts=%s)' % (imf.shape[1], err, np.round(x, 3).tolist()[:14], o)
     pk, tr = n_ext(last)
     if pk >= 2 and tr >= 2:
